@@ -55,6 +55,11 @@ int32_t pkcs1Pad(const unsigned char *in, psSize_t inlen,
     unsigned char *c;
     uint32_t randomLen;
 
+    if (outlen < 11 || inlen > outlen - 11)
+    {
+        psTraceCrypto("pkcs1Pad failure: message too long\n");
+        return PS_LIMIT_FAIL;
+    }
     randomLen = outlen - 3 - inlen;
     if (randomLen < 8)
     {
@@ -125,7 +130,8 @@ int32_t pkcs1UnpadExt(const unsigned char *in,
 {
     const unsigned char *c, *end;
 
-    if (verifyUnpaddedLen && inlen < outlen + 10)
+    /* 00 || BT || PS (at least 8 octets) || 00 || M */
+    if (verifyUnpaddedLen && inlen < outlen + 11)
     {
         psTraceCrypto("pkcs1Unpad failure\n");
         return PS_ARG_FAIL;
